@@ -36,6 +36,10 @@ CHECKS = {
    text="(a) The decythonised source of all kernel entry points is executed symbolically (guarded updates, NaN flags) and each output cell is proved equal to its defining sum: randomization / incompressible / Fourier mode sums (dim 1-3), c^T M k and k^T M k, variogram accumulators and counts vs pair enumeration with half-open bins (Euclidean and haversine, Matheron and Cressie, NaN skipping, direction test proved separately and then treated as an opaque predicate, separated directions = first match only, structured and masked grids) and the normalisation functions vs closed form. (b) For every prange loop an LIA query with unbounded extents shows that two different parallel iterations never write (or read-after-write) the same cell, and the clauses of the generated OpenMP pragmas are audited for thread-private scalars and absence of nowait. (c) set_num_threads for both OPENMP values. (d) Translation validation: the source semantics in concrete mode vs the installed .so on seeded random and boundary inputs (rtol 1e-12), and a scratch -fopenmp build of the generated C gives bit-identical results for num_threads in {None,1,2,3,4,8,16}.",
    note="symbolic sizes are small (2-4 points, 2-3 modes/bins); the loop nests have no size-dependent branch; the .so cannot be regenerated from an edited .pyx (no Cython): a source edit is caught by (a)/(b) and shows up as source-vs-artefact disagreement in (d).",
    technique="symbolic interpretation of the .pyx AST with state merging + SMT; LIA ownership queries; differential run against compiled artefacts", ref="DESIGN.md §4 C15"),
+ "C08": dict(engine="E2-kernel + E1-symnp", level="model_checking",
+   text="Kernel level: the decythonised estimator.pyx is executed symbolically for <=4 points (5 in thorough), <=3 bins, <=2 fields with symbolic values and symbolic NaN flags, dim 1-3, Euclidean and haversine distance, Matheron and Cressie, two directions with symbolic tolerance/bandwidth, overlapping and separated directions, structured and masked grids; accumulators and pair counts are proved equal to pair enumeration with half-open bins, the direction test equal to its documented predicate, the normalisation functions equal to their closed form (empty bins -> 0). Wrapper level: the real vario_estimate / vario_estimate_axis run symbolically with the kernels interpreted from source: estimates, counts and bin centres equal the definition on the caller's original inputs for plain, NaN, no_data, mask and masked-array inputs and several fields; directions are normalised, angles follow (cos a, sin a), separated-directions flag <=> angle between directions >= 2 tol, great-circle edges are divided by geo_scale, structured meshes expand in ij order, axis estimator along x/y with missing cells.",
+   note="sizes bounded as stated (loop nests are uniform in size); Cressie end-to-end through the wrapper is split (data/estimator code reach the kernel + kernel-level proof) because the 4th-power identity is undecided as one query; standard_bins values and fit_normalizer are outside.",
+   technique="symbolic interpretation of the .pyx kernels (state merging) inside symbolic execution of the Python wrappers + SMT equivalence with pair enumeration", ref="DESIGN.md §4 C08"),
 }
 
 PENDING_REASON = "check not built yet in this session (work in progress; see DESIGN.md §7 build order)"
